@@ -301,6 +301,21 @@ type nosyncStats struct {
 	porcNativeIllegal int
 	states            map[string]bool
 	perPrim           map[string]map[string]int
+	reported          map[string]bool // violation keys already reported (one witness per key)
+}
+
+// once reports whether key is reported for the first time.
+func (s *nosyncStats) once(key string) bool {
+	s.mu.Lock()
+	defer s.mu.Unlock()
+	if s.reported == nil {
+		s.reported = map[string]bool{}
+	}
+	if s.reported[key] {
+		return false
+	}
+	s.reported[key] = true
+	return true
 }
 
 func newNosyncStats() *nosyncStats {
@@ -475,8 +490,10 @@ func runNosync(c *core.Ctx, ns *nosyncStats, j *nosyncJob) {
 				break
 			}
 		}
-		c.Violate(key, fmt.Sprintf("%s: nosync under GopherJS differs from package sync on the host in an uncontended history: %s", j.name, d),
-			bundle(map[string]string{"js.out": js.String(), "ref.out": ref.String(), "diff.txt": d}))
+		if ns.once(key) {
+			c.Violate(key, fmt.Sprintf("%s: nosync under GopherJS differs from package sync on the host in an uncontended history: %s", j.name, d),
+				bundle(map[string]string{"js.out": js.String(), "ref.out": ref.String(), "diff.txt": d}))
+		}
 	}
 
 	// (ii) every history against the sequential model, with porcupine
@@ -504,8 +521,14 @@ func runNosync(c *core.Ctx, ns *nosyncStats, j *nosyncJob) {
 		if badLine != nil {
 			key = stepKey(*badLine) + "/model"
 		}
-		c.Violate(key, fmt.Sprintf("%s: %d histor(ies) of nosync under GopherJS are not legal for the sequential model of the primitive (porcupine: Illegal); first:\n%s", j.name, illJ, badJ),
-			bundle(map[string]string{"js.out": js.String(), "ref.out": ref.String(), "illegal.txt": badJ}))
+		if ns.reported == nil {
+			ns.reported = map[string]bool{}
+		}
+		if !ns.reported[key] { // ns.mu is held here
+			ns.reported[key] = true
+			c.Violate(key, fmt.Sprintf("%s: %d histor(ies) of nosync under GopherJS are not legal for the sequential model of the primitive (porcupine: Illegal); first:\n%s", j.name, illJ, badJ),
+				bundle(map[string]string{"js.out": js.String(), "ref.out": ref.String(), "illegal.txt": badJ}))
+		}
 	}
 
 	// observation accounting; every JS-only terminal step must have been executed
